@@ -114,6 +114,13 @@ def library(tier):
         {"id": "lib_accept_during_stop", "kind": "script", "conns": [c(1, 4, "l13")],
          "steps": [S("armlate"), S("connect", k=1), S("stop"), S("send", k=1, kind="connect"), S("settle")]},
         {"id": "lib_gate_two_connects_stored_session", "kind": "gate", "conns": [c(1, 4, "g1", clean=False)]},
+        # lock order (spec/LockOrder.tla): a delivery parked under srv.mu + the subscription store's read lock, a SUBSCRIBE
+        # announcing a writer, then a statistics read / a new client id; every request must still be answered
+        {"id": "lib_lockorder_statsread", "kind": "lockorder", "conns": [c(1, 5, "statsread")]},
+        {"id": "lib_lockorder_new_client", "kind": "lockorder", "conns": [c(1, 5, "touch")]},
+        # fresh client ids, subscription-store writers, deliveries and statistics reads against each other (both delivery modes)
+        {"id": "lib_pairs_overlap", "kind": "pairs", "seed": 2, "storm": dict(clients=24, ids=4, ops=40 if tier == "quick" else 300, api=2, stop_lo_ms=0, stop_hi_ms=1)},
+        {"id": "lib_pairs_onlyonce", "kind": "pairs", "seed": 3, "storm": dict(clients=24, ids=4, ops=40 if tier == "quick" else 300, api=2, stop_lo_ms=0, stop_hi_ms=1)},
     ]
     if tier == "thorough":
         lib += [
@@ -191,6 +198,10 @@ def run(ctx):
                                                      (" [select %s]" % ",".join(o.get("select_others") or []) if o["select"] else "")) for o in table["ops"]]
     vlib.log("[C15] source: " + ", ".join("%s=%s" % kv for kv in sorted(ops.items())))
 
+    lconsts, ltable = cl.extract_lockorder(ctx)
+    ctx.cov["source_lock_order"] = dict(lconsts, functions_holding_clientmu=[f["name"] for f in ltable["functions"] if f["locks_clientmu"]])
+    vlib.log("[C15] source (lock order): " + ", ".join("%s=%s" % kv for kv in sorted(lconsts.items())))
+
     ps, expose, green = packs(ctx.tier, ops["in_send_guard"])
     closed = window_closed(ops)
     ctx.cov["windows_closed_in_source"] = closed
@@ -258,6 +269,26 @@ def run(ctx):
     # ---- (1) behaviours of the model -> scripts
     scen = []
     predicted = {}
+    # lock order: the model with the source's constants; a stuck state becomes a gated script / a workload
+    lres, third = cl.tlc_lockorder(ctx, lconsts, cl.LOCK_KINDS, "src")
+    ctx.cov["states"] += lres.distinct
+    if third is None:
+        if lres.rc != 0:
+            raise vlib.MachineryError("LockOrder.tla failed: " + "\n".join(lres.tail[-20:]))
+        predicted["lock_order"] = "no lock cycle among %s with the source's constants %s (exhaustive, %d states)" % (cl.LOCK_KINDS, lconsts, lres.distinct)
+    else:
+        # every third party the model can get stuck with (the paths that take clientMu and then the store's lock)
+        thirds = [third]
+        other = [k for k in cl.LOCK_KINDS if k not in ("deliver", "subscribe", third)]
+        r2, t2 = cl.tlc_lockorder(ctx, lconsts, ["deliver", "subscribe"] + other, "src2")
+        if t2 and t2 not in thirds:
+            thirds.append(t2)
+        predicted["lock_order"] = "lock cycle reachable: deliver (srv.mu, store read lock, wants clientMu) / subscribe (announced writer) / %s (clientMu, wants the store's read lock)" % " or ".join(thirds)
+        for t in thirds:
+            for sc in cl.lock_scenarios(t, ctx.seed):
+                sc["model_property"] = "NoLockCycle"
+                scen.append(sc)
+                origin[sc["id"]] = "TLC counter-example (NoLockCycle) of LockOrder.tla with the source's constants %s, third party %s" % (lconsts, t)
     for (kind, name), (pk, res, ce) in sorted(results.items()):
         if kind == "expose":
             if ce is None:
@@ -287,12 +318,17 @@ def run(ctx):
     vlib.log("[C15] %d scripts from TLC behaviours on the real broker in %.1fs" % (len(scen), time.time() - t0))
     out.update(side["lib"])
     nscript = 0
+    lockrep = {}
     for sc in scen + lib:
         res = out[sc["id"]]
         nscript += 1
         n = report_divs(ctx, sc, res, origin[sc["id"]], seen)
         ctx.sample({"scenario": sc["id"], "origin": origin[sc["id"]], "steps": sc.get("steps"),
                     "divergences": [cl.canon_sig(d["signature"]) for d in res.get("divs") or []]}, cap=8)
+        if sc["id"].startswith("ce_lock_"):
+            # (a workload: any one of the runs for this third party reproducing the cycle is enough; judged below)
+            lockrep.setdefault(sc["id"].rsplit("_", 1)[0] if sc["kind"] == "pairs" else sc["id"], []).append(n)
+            continue
         if sc["id"].startswith("ce_"):
             # a behaviour of the model alone is never a verdict: it must reproduce -- and reproduce the predicted divergence
             want = cl.DEVIATIONS.get(sc["id"][3:])
@@ -305,6 +341,10 @@ def run(ctx):
                 raise vlib.MachineryError("unreproduced counter-example: %s: predicted %s, observed on the real broker %s (model end state %s)" % (
                     origin[sc["id"]], want, sorted(got), json.dumps(sc.get("model_end_state"))))
     ctx.cov["scripts_executed"] = nscript
+    for key, ns in lockrep.items():
+        if not any(ns):
+            raise vlib.MachineryError("unreproduced counter-example: LockOrder.tla predicts a lock cycle (%s) with the source's constants %s, "
+                                      "but the real broker answered every request in %d run(s)" % (key, lconsts, len(ns)))
 
     # ---- (4) storms on the -race build + trace validation of the lifecycle events
     sres = side["storms"]
